@@ -398,3 +398,101 @@ def module_container_mutations(prog: "Program", fi: "FunctionInfo"):
                     if g and (t.id != g or any(isinstance(x, ast.Global) and g in x.names for x in ast.walk(fn))):
                         out.append((n, t.id, g, "augmented assignment"))
     return out
+
+
+# ---------------------------------------------------------------------------
+# in-place mutation of a container parameter that may alias stored state at a call site
+# ---------------------------------------------------------------------------
+
+def _name_defs(fn: ast.AST, name: str):
+    """[(value expr, position or None)] of every binding of `name` in fn: plain assignment, tuple unpacking (position), for-target"""
+    out = []
+    for s_ in walk_no_nested(fn):
+        if isinstance(s_, ast.Assign):
+            for t in s_.targets:
+                if isinstance(t, ast.Name) and t.id == name:
+                    out.append((s_.value, None))
+                elif isinstance(t, (ast.Tuple, ast.List)):
+                    for k_, e_ in enumerate(t.elts):
+                        if isinstance(e_, ast.Name) and e_.id == name:
+                            out.append((s_.value, k_))
+        elif isinstance(s_, ast.For) and isinstance(s_.target, ast.Name) and s_.target.id == name:
+            out.append((ast.Subscript(value=s_.iter, slice=ast.Constant(value=0), ctx=ast.Load()), None))  # an element of the iterable
+    return out
+
+
+def may_be_stored_state(prog: "Program", fi: "FunctionInfo", e: ast.expr, depth: int = 0, pos=None, _seen=None) -> Optional[str]:
+    """does expression e (evaluated in fi) possibly denote an object that outlives the call - an attribute of an object,
+    an element of such a container, a module-level container, or the result of a function that returns one of those?
+    -> a short description of the stored object, or None.  Fresh objects (displays, comprehensions, constructor / numpy calls,
+    copies, slices, arithmetic) are not stored state."""
+    _seen = _seen if _seen is not None else set()
+    if depth > 4:
+        return None
+    if isinstance(e, ast.Attribute):
+        c = attr_chain(e)
+        if c and not c.split(".")[0][:1].isupper():
+            return c
+        return None
+    if isinstance(e, ast.Subscript):
+        if isinstance(e.slice, ast.Slice):
+            return None  # a slice of a list is a copy (numpy views are not tracked)
+        inner = may_be_stored_state(prog, fi, e.value, depth, None, _seen)
+        return f"{inner}[..]" if inner else None
+    if isinstance(e, ast.Name):
+        key = (fi.qualname, e.id)
+        if key in _seen:
+            return None
+        _seen.add(key)
+        m = prog.modules.get(fi.module)
+        local_names = {x.id for x in walk_no_nested(fi.node) if isinstance(x, ast.Name) and isinstance(x.ctx, ast.Store)} | set(fi.params())
+        if e.id not in local_names and m is not None and e.id in m.constants and isinstance(m.constants[e.id], (ast.List, ast.Dict, ast.Set)):
+            return f"module-level {e.id}"
+        for v, k_ in _name_defs(fi.node, e.id):
+            r = may_be_stored_state(prog, fi, v, depth, k_, _seen)
+            if r:
+                return r
+        return None
+    if isinstance(e, ast.IfExp):
+        return may_be_stored_state(prog, fi, e.body, depth, pos, _seen) or may_be_stored_state(prog, fi, e.orelse, depth, pos, _seen)
+    if isinstance(e, ast.Tuple) and pos is not None and pos < len(e.elts):
+        return may_be_stored_state(prog, fi, e.elts[pos], depth, None, _seen)
+    if isinstance(e, ast.Call):
+        c = attr_chain(e.func) or ""
+        last = c.split(".")[-1]
+        if last in ("copy", "deepcopy", "list", "dict", "set", "tuple", "sorted", "tolist", "array", "zeros", "zeros_like", "ones", "linspace", "arange"):
+            return None
+        # a function of the package that may return stored state
+        cands = [f for q, f in prog.funcs.items() if f.name == last and (not c.startswith("self.") or f.cls is not None)]
+        if len(cands) > 3:
+            return None
+        for g in cands:
+            for r_ in walk_no_nested(g.node):
+                if isinstance(r_, ast.Return) and r_.value is not None:
+                    rv = r_.value
+                    if pos is not None and isinstance(rv, ast.Tuple) and pos < len(rv.elts):
+                        rv = rv.elts[pos]
+                    elif pos is not None and not isinstance(rv, ast.Name):
+                        continue
+                    got = may_be_stored_state(prog, g, rv, depth + 1, None, _seen)
+                    if got:
+                        return f"{got} (returned by {g.name})"
+        return None
+    return None
+
+
+def param_container_mutations(fi: "FunctionInfo"):
+    """[(node, param, how)]: item stores / mutator calls on a parameter of fi that is never rebound in fi"""
+    ps = set(fi.params()) - {"self", "cls"}
+    rebound = {x.id for x in walk_no_nested(fi.node) if isinstance(x, ast.Name) and isinstance(x.ctx, ast.Store)}
+    out = []
+    for n in walk_no_nested(fi.node):
+        if isinstance(n, (ast.Assign, ast.AugAssign, ast.Delete)):
+            tg = n.targets if isinstance(n, (ast.Assign, ast.Delete)) else [n.target]
+            for t in tg:
+                if isinstance(t, ast.Subscript) and isinstance(t.value, ast.Name) and t.value.id in ps and t.value.id not in rebound:
+                    out.append((n, t.value.id, "item assignment"))
+        if isinstance(n, ast.Call) and isinstance(n.func, ast.Attribute) and isinstance(n.func.value, ast.Name) and n.func.value.id in ps \
+                and n.func.value.id not in rebound and n.func.attr in MUTATORS:
+            out.append((n, n.func.value.id, f".{n.func.attr}()"))
+    return out
